@@ -216,7 +216,7 @@ func c03XAlphabet(level int) []*big.Int {
 
 		add(np.P.X)
 		add(new(big.Int).Add(np.P.X, ref.P)) // alias x+p (dropped when it does not fit 256 bits)
-		add(np.P.Y)                            // mostly off-curve abscissae
+		add(np.P.Y)                          // mostly off-curve abscissae
 	}
 
 	out := make([]*big.Int, 0, len(set))
